@@ -196,6 +196,10 @@ theorem blockBodies_ok {env : Env} (h : EnvOk env) {name : String} {dflt b : Lis
     subst heq
     exact ⟨this b List.mem_cons_self, fun x hx => this x (List.mem_cons_of_mem _ hx)⟩
 
+theorem caller_none_ok : ∀ (b : List Stmt) (vs : List (String × Nat)),
+    (Option.none : Option (List Stmt × List (String × Nat))) = some (b, vs) → HtmlOnlySs b := by
+  intro b vs h; cases h
+
 theorem caller_some_ok {body : List Stmt} {vars : List (String × Nat)} (hb : HtmlOnlySs body) :
     ∀ b vs, some (body, vars) = some (b, vs) → HtmlOnlySs b := by
   intro b vs h; cases h; exact hb
@@ -210,7 +214,7 @@ macro "envok" : tactic => `(tactic| first
   | exact hEnv.forSuper ‹_›
   | exact hEnv.forInclude ‹_›
   | exact hEnv.withMode ‹_›
-  | exact hEnv.forMacro _ _ (by intro _ _ h; cases h)
+  | exact hEnv.forMacro _ _ caller_none_ok
   | exact hEnv.forMacro _ _ (caller_some_ok ‹_›))
 
 set_option hygiene false in
@@ -334,5 +338,134 @@ theorem exec_pres_frag : ∀ fuel : Nat,
           have hm := derive_html ha heq
           pres2
       | _ => simp only [execStmt] <;> pres2
+
+
+/-! ### whole programs -/
+
+theorem lookup_some_mem {β : Type} {n : String} {l : List (String × β)} {v : β} (h : l.lookup n = some v) :
+    ∃ k, (k, v) ∈ l := by
+  induction l with
+  | nil => simp [List.lookup] at h
+  | cons p ps ih =>
+    obtain ⟨a, b⟩ := p
+    simp only [List.lookup] at h
+    split at h
+    · cases h; exact ⟨a, List.mem_cons_self⟩
+    · obtain ⟨k, hk⟩ := ih h; exact ⟨k, List.mem_cons_of_mem _ hk⟩
+
+def ChainsOk (chains : List (String × List (List Stmt))) : Prop := ∀ entry ∈ chains, ∀ b ∈ entry.2, HtmlOnlySs b
+
+theorem topBlocks_ok : ∀ (ss : List Stmt), HtmlOnlySs ss → ∀ nb ∈ topBlocks ss, HtmlOnlySs nb.2 := by
+  intro ss
+  induction ss with
+  | nil => intro _ nb h; simp [topBlocks] at h
+  | cons s ss ih =>
+    intro hs nb h
+    cases hs with
+    | cons hs1 hss =>
+      cases hs1 with
+      | block name hb =>
+        simp only [topBlocks, List.mem_cons] at h
+        rcases h with rfl | h
+        · exact hb
+        · exact ih hss nb h
+      | _ => simp only [topBlocks] at h; exact ih hss nb h
+
+theorem addBlocks_ok : ∀ (bs : List (String × List Stmt)) (chains : List (String × List (List Stmt))),
+    ChainsOk chains → (∀ nb ∈ bs, HtmlOnlySs nb.2) → ChainsOk (addBlocks chains bs) := by
+  intro bs
+  induction bs with
+  | nil => intro chains hc _; simpa [addBlocks] using hc
+  | cons nb rest ih =>
+    intro chains hc hb
+    obtain ⟨n, b⟩ := nb
+    simp only [addBlocks]
+    apply ih _ _ (fun x hx => hb x (List.mem_cons_of_mem _ hx))
+    have hbok : HtmlOnlySs b := hb (n, b) List.mem_cons_self
+    split
+    · rename_i bodies hl
+      obtain ⟨k, hk⟩ := lookup_some_mem hl
+      intro entry he x hx
+      rcases List.mem_cons.mp he with rfl | he
+      · rcases List.mem_append.mp hx with hx | hx
+        · exact hc _ hk x hx
+        · simp only [List.mem_singleton] at hx; subst hx; exact hbok
+      · exact hc entry (List.mem_filter.mp he).1 x hx
+    · intro entry he x hx
+      rcases List.mem_cons.mp he with rfl | he
+      · simp only [List.mem_singleton] at hx; subst hx; exact hbok
+      · exact hc entry he x hx
+
+theorem buildChains_ok {ts : List Tmpl} (h : ∀ t ∈ ts, HtmlOnlySs t.body) : ChainsOk (buildChains ts) := by
+  unfold buildChains
+  have : ∀ (ts : List Tmpl) (acc : List (String × List (List Stmt))), ChainsOk acc → (∀ t ∈ ts, HtmlOnlySs t.body) →
+      ChainsOk (ts.foldl (fun acc t => addBlocks acc (topBlocks t.body)) acc) := by
+    intro ts
+    induction ts with
+    | nil => intro acc ha _; simpa using ha
+    | cons t ts ih =>
+      intro acc ha ht
+      simp only [List.foldl_cons]
+      exact ih _ (addBlocks_ok _ _ ha (topBlocks_ok _ (ht t List.mem_cons_self))) (fun x hx => ht x (List.mem_cons_of_mem _ hx))
+  exact this ts [] (by intro e he; cases he) h
+
+theorem inheritChain_mem {p : Prog} : ∀ (fuel : Nat) (name : String), ∀ t ∈ inheritChain p fuel name, t ∈ p.templates := by
+  intro fuel
+  induction fuel with
+  | zero => intro name t h; simp [inheritChain] at h
+  | succ fuel ih =>
+    intro name t h
+    simp only [inheritChain] at h
+    split at h
+    · cases h
+    · rename_i t0 h0
+      have hm : t0 ∈ p.templates := (find?_mem_pred (by unfold findTmpl at h0; exact h0)).1
+      split at h
+      · simp only [List.mem_singleton] at h; subst h; exact hm
+      · rcases List.mem_cons.mp h with rfl | h
+        · exact hm
+        · exact ih _ t h
+
+theorem inheritChain_head {p : Prog} {fuel : Nat} {name : String} (h : inheritChain p fuel name ≠ []) :
+    ∃ t, findTmpl p name = some t := by
+  cases fuel with
+  | zero => simp [inheritChain] at h
+  | succ fuel =>
+    simp only [inheritChain] at h
+    split at h
+    · exact absurd rfl h
+    · rename_i t0 h0; exact ⟨t0, h0⟩
+
+theorem Pres.execProgM_frag (fuel : Nat) {p : Prog} (hp : HtmlOnlyP p) (ctx : List (String × CV)) :
+    Pres (Safe.execProgM false fuel p ctx) := by
+  obtain ⟨ihE, ihA, ihK, ihF, ihSS, ihS⟩ := exec_pres_frag fuel
+  unfold Safe.execProgM
+  simp only
+  split
+  · exact Pres.fail
+  · rename_i base hbase
+    have hmem : base ∈ inheritChain p (p.templates.length + 1) p.main := List.mem_of_getLast? hbase
+    have hbt := inheritChain_mem _ _ base hmem
+    have hne : inheritChain p (p.templates.length + 1) p.main ≠ [] := by
+      intro h; rw [h] at hmem; cases hmem
+    obtain ⟨t0, ht0⟩ := inheritChain_head hne
+    have hmode := (findTmpl_ok hp ht0).1
+    refine Pres.bind (Pres.pushCtx _) fun globals => ?_
+    refine Pres.bind ?_ fun _ => Pres.pure _
+    refine ihSS _ _ ⟨hmode, hmode, hp, ?_, ?_, ?_, ?_⟩ (hp base hbt).2.1
+    · intro body vars h; cases h
+    · intro v body h; cases h
+    · intro b hb; cases hb
+    · intro n bs hl b hb
+      obtain ⟨k, hk⟩ := lookup_some_mem hl
+      exact buildChains_ok (fun t ht => (hp t (inheritChain_mem _ _ t ht)).2.1) _ hk b hb
+
+/-- an unguarded run of a program of the fragment ends in a state satisfying the machine invariant -/
+theorem execProg_frag_inv {p : Prog} (hp : HtmlOnlyP p) (ctx : List (String × CV)) (st : St)
+    (h : execProg false p ctx = some st) : StInv st := by
+  unfold execProg at h
+  simp only [Option.map_eq_some_iff] at h
+  obtain ⟨⟨u, st1⟩, h1, rfl⟩ := h
+  exact (Pres.execProgM_frag defaultFuel hp ctx).apply stInv_init h1
 
 end MJ.Safe
